@@ -113,8 +113,8 @@ class C04(Check):
             if case["kind"] == "sim":
                 return self.sim_oracle(case, sc)
             if case["kind"] == "program":
-                from .. import qprog
-                return qprog.c04_program_oracle(self, case, sc)
+                from .. import qchecks
+                return qchecks.c04_program_oracle(self, case, sc)
         return None
 
     def search(self, tier, seed):
@@ -133,11 +133,8 @@ def _worker(widx, wseed, tier, check):
         f = hyp_search(reset_case(4 if quick else 6), prop, wseed, 60 if quick else 1200, stats)
         if f:
             failures.append(f)
-        try:
-            from .. import qprog
-        except ImportError:
-            qprog = None
-        if qprog is not None and hasattr(qprog, "c04_program_search"):
+        from .. import qchecks as qprog
+        if True:
             f = qprog.c04_program_search(check, sc, derive_seed(wseed, "prog"), 40 if quick else 800, stats)
             if f:
                 failures.append(f)
